@@ -12,7 +12,10 @@
 //   QA <a> <n> <h|->  scan_range(a, first n bytes of the SAME buffer)   (byte keys: bounds that alias one caller buffer)
 //   QB <a> <n> <h|->  scan_range(first n bytes of the same buffer, a)
 //   D                 canonical dump + statistics + held-view check (+ with the verification hooks: bytes held from
-//                     the allocator must equal the reported memory use -> HEAPBAD; N reports LEAK after destruction)
+//                     the allocator must equal the reported memory use -> HEAPBAD; N reports LEAK after destruction;
+//                     " A=<size>x<count>,..." the multiset of the block sizes currently held from the allocator and
+//                     " T=+<sizes obtained>/-<sizes returned>" since the previous D (or N), each as such a multiset:
+//                     compared with the model's blocks of the tree / op_allocs, op_frees of Art/ArtAlloc.v)
 // Keys and values are hex byte strings ("-" = empty); for u64 indexes the key
 // is the 8-byte big-endian (binary comparable) form of the integer.
 #include "global.hpp"
@@ -222,10 +225,36 @@ std::map<const void*, std::uint64_t>& live_blocks() {
   return m;
 }
 bool tracking = false;
+// sizes obtained from / returned to the allocator since the last D (or N)
+std::map<std::uint64_t, std::uint64_t> got_sizes, returned_sizes;
 void mem_obs(unsigned kind, const void* addr, std::uint64_t a, std::uint64_t, std::uint64_t) {
   if (!tracking) return;
-  if (kind == unodb::detail::verif::mem_alloc) live_blocks()[addr] = a;
-  if (kind == unodb::detail::verif::mem_free) live_blocks().erase(addr);
+  if (kind == unodb::detail::verif::mem_alloc) {
+    live_blocks()[addr] = a;
+    ++got_sizes[a];
+  }
+  if (kind == unodb::detail::verif::mem_free) {
+    auto it = live_blocks().find(addr);
+    if (it != live_blocks().end()) {
+      ++returned_sizes[it->second];
+      live_blocks().erase(it);
+    } else {
+      ++returned_sizes[0];  // a block that is not held: shows up as size 0 in T
+    }
+  }
+}
+std::string multiset_str(const std::map<std::uint64_t, std::uint64_t>& m) {
+  std::string out;
+  for (auto& kv : m) {
+    if (!out.empty()) out += ",";
+    out += std::to_string(kv.first) + "x" + std::to_string(kv.second);
+  }
+  return out.empty() ? "-" : out;
+}
+std::string live_sizes_str() {
+  std::map<std::uint64_t, std::uint64_t> m;
+  for (auto& kv : live_blocks()) ++m[kv.second];
+  return multiset_str(m);
 }
 std::uint64_t live_bytes() {
   std::uint64_t n = 0;
@@ -261,6 +290,8 @@ int run() {
       if (tracking && !live_blocks().empty())
         out += " LEAK=" + std::to_string(live_bytes()) + "/" + std::to_string(live_blocks().size());
       live_blocks().clear();
+      got_sizes.clear();
+      returned_sizes.clear();
       tracking = true;
 #endif
       db = std::make_unique<Db>();
@@ -364,9 +395,16 @@ int run() {
       for (auto& [k, h] : held)
         if (h.len != h.val.size() || (h.len != 0 && std::memcmp(h.ptr, h.val.data(), h.len) != 0)) views_ok = false;
       if (!views_ok) out += " VIEWBAD";
+#ifdef UNODB_DETAIL_VERIF_HOOKS
+      quiesce<Db>();
+      quiesce<Db>();
+      if (tracking) {
+        out += " A=" + live_sizes_str() + " T=+" + multiset_str(got_sizes) + "/-" + multiset_str(returned_sizes);
+        got_sizes.clear();
+        returned_sizes.clear();
+      }
+#endif
 #if defined(UNODB_DETAIL_VERIF_HOOKS) && defined(UNODB_DETAIL_WITH_STATS)
-      quiesce<Db>();
-      quiesce<Db>();
       if (tracking && live_bytes() != db->get_current_memory_use())
         out += " HEAPBAD(held=" + std::to_string(live_bytes()) + ",reported=" + std::to_string(db->get_current_memory_use()) + ")";
 #endif
